@@ -194,4 +194,77 @@ PropertyHolds(tab, h) ==
               /\ tab[x].prov[f] \in 1..Len(h) /\ f \in h[tab[x].prov[f]].has
 IsolationHolds(tab, h) ==
   \A x \in DOMAIN tab : LET solo == Run(Restrict(h, x)) IN x \in DOMAIN solo /\ solo[x] = tab[x]
+
+(***************************************************************************)
+(* The rest of the table's life cycle wired up in main.rs / web.rs.        *)
+(*                                                                         *)
+(* HISTORY.  After update_snapshot the main loop evaluates the output      *)
+(* filter (r.kept) and, unless history is switched off (history_expire =   *)
+(* 0), hands the record to store_history, which appends it to the history  *)
+(* of the entry filed under the record's address.  Design level: only      *)
+(* extended squitters and Comm-B replies (DF17/18/20/21) are stored.       *)
+(* A history is the sequence of the identifiers of the stored records.     *)
+(* History mutants: "hist_miskey" files DF18 records under another key,    *)
+(* "hist_prefilter" stores before the filter, "track_all" serves the       *)
+(* histories of all aircraft.                                              *)
+(***************************************************************************)
+Stored(k) == k \in AdsbKinds \cup TisbKinds \cup CommBKinds
+
+HistKeyOf(r) == IF Mutant = "hist_miskey" /\ r.k \in TisbKinds THEN "ffffff" ELSE r.addr
+Keeps(r, on) == on /\ (r.kept \/ Mutant = "hist_prefilter")
+
+HistStep(hs, r, on) ==
+  IF r.addr = None \/ ~Keeps(r, on) THEN hs
+  ELSE LET key == HistKeyOf(r)
+           old == IF key \in DOMAIN hs THEN hs[key] ELSE <<>>
+       IN [x \in DOMAIN hs \cup {key} |->
+             IF x = key THEN (IF Stored(r.k) THEN Append(old, r.id) ELSE old) ELSE hs[x]]
+NoHistory == [x \in {} |-> <<>>]
+
+RECURSIVE HistRunFrom(_, _, _, _)
+HistRunFrom(hs, h, i, on) == IF i > Len(h) THEN hs ELSE HistRunFrom(HistStep(hs, h[i], on), h, i + 1, on)
+HistRun(h, on) == HistRunFrom(NoHistory, h, 1, on)
+
+(* REST views (web.rs).  Home: the addresses of the aircraft seen ("/").   *)
+(* Track(x, since): a reply [known, ids]: known = x has an entry (the code  *)
+(* answers null otherwise), ids = the history of x restricted to records   *)
+(* later than since (since = -1: no restriction).                          *)
+HomeView(tab) == DOMAIN tab
+RECURSIVE Concat(_, _)
+Concat(hs, keys) == IF keys = {} THEN <<>>
+                    ELSE LET x == CHOOSE y \in keys : TRUE IN hs[x] \o Concat(hs, keys \ {x})
+TrackView(tab, hs, h, x, since) ==
+  IF x \notin DOMAIN tab THEN [known |-> FALSE, ids |-> <<>>]
+  ELSE LET full == IF Mutant = "track_all" THEN Concat(hs, DOMAIN hs)
+                   ELSE IF x \in DOMAIN hs THEN hs[x] ELSE <<>>
+       IN [known |-> TRUE, ids |-> SelectSeq(full, LAMBDA id : since < 0 \/ h[id].t > since)]
+
+(* Property level for the served views.  ids: the identifiers of the       *)
+(* records a /track reply consists of, in the order served.                *)
+Increasing(ids) == \A i \in 1..(Len(ids) - 1) : ids[i] < ids[i + 1]
+PropHome(list, h) == /\ {list[i] : i \in 1..Len(list)} = Seen(h)
+                     /\ Cardinality({list[i] : i \in 1..Len(list)}) = Len(list)
+PropTrackOwn(ids, h, x) == \A i \in 1..Len(ids) : ids[i] \in Own(h, x)
+PropTrackKept(ids, h, on) == \A i \in 1..Len(ids) : ids[i] \in 1..Len(h) /\ on /\ h[ids[i]].kept
+PropTrackOrder(ids) == Increasing(ids)
+(* a restricted reply holds the records of the unrestricted one that are   *)
+(* later than since, and none earlier than since                           *)
+PropTrackSince(ids, full, h, since) ==
+  /\ \A i \in 1..Len(ids) : h[ids[i]].t >= since /\ \E j \in 1..Len(full) : full[j] = ids[i]
+  /\ \A j \in 1..Len(full) : h[full[j]].t > since => \E i \in 1..Len(ids) : ids[i] = full[j]
+TrackHolds(reply, h, x, on) ==
+  /\ reply.known = (x \in Seen(h))
+  /\ reply.known => /\ PropTrackOwn(reply.ids, h, x) /\ PropTrackKept(reply.ids, h, on)
+                     /\ PropTrackOrder(reply.ids)
+
+(* EXPIRY.  main.rs: every 60 s a task removes the entries last seen more  *)
+(* than `minutes` ago and prunes older history elements.  The logic is an  *)
+(* inline closure of main() and reads the wall clock: it cannot be called  *)
+(* from the driver, so it is specified here (design level) and             *)
+(* model-checked, but NOT bound to the code.                               *)
+ExpireTable(tab, now, minutes) ==
+  [x \in {y \in DOMAIN tab : ~(now > tab[y].last + minutes * 60)} |-> tab[x]]
+ExpireHist(tab, hs, h, now, minutes) ==
+  [x \in DOMAIN hs \cap DOMAIN ExpireTable(tab, now, minutes) |->
+     SelectSeq(hs[x], LAMBDA id : now < h[id].t + minutes * 60)]
 =============================================================================
